@@ -1,8 +1,8 @@
 package harness
 
 import (
-	"crypto/sha256"
 	"context"
+	"crypto/sha256"
 	"errors"
 	"fmt"
 	"io"
@@ -403,13 +403,13 @@ type streamItem struct {
 }
 
 type dagStream struct {
-	net  *SimNet
-	ctx  context.Context
-	q    chan streamItem
-	done chan struct{}
-	sent int
-	f    *StreamFault
-	seen []*pb.Vertex
+	net    *SimNet
+	ctx    context.Context
+	q      chan streamItem
+	done   chan struct{}
+	sent   int
+	f      *StreamFault
+	seen   []*pb.Vertex
 	from   int
 	toURL  string
 	closed bool
